@@ -300,10 +300,11 @@ func (v *Vue) evaluateNodeAsElement(ctx VueContext, node *html.Node, depth int) 
 		return evaluated, nil
 	}
 
-	// Regular element node processing (no v-for)
+	// Regular element node processing (no v-for): the same steps as for an element outside a chain
 	hasVHtml := helpers.GetAttr(node, "v-html") != ""
+	hasVText := helpers.GetAttr(node, "v-text") != ""
 	var newNode *html.Node
-	if hasVHtml {
+	if hasVHtml || hasVText {
 		newNode = helpers.DeepCloneNode(node)
 	} else {
 		newNode = helpers.ShallowCloneWithAttrs(node)
@@ -312,11 +313,17 @@ func (v *Vue) evaluateNodeAsElement(ctx VueContext, node *html.Node, depth int) 
 	if err := v.evalVHtml(ctx, newNode); err != nil {
 		return nil, err
 	}
+	if err := v.evalVText(ctx, newNode); err != nil {
+		return nil, err
+	}
+	if err := v.evalVShow(ctx, newNode); err != nil {
+		return nil, err
+	}
 	if _, err := v.evalAttributes(ctx, newNode); err != nil {
 		return nil, err
 	}
 
-	if !hasVHtml {
+	if !hasVHtml && !hasVText {
 		ctx.PushTag(node.Data)
 		newChildren, err := v.evaluateChildren(ctx, node, depth+1)
 		ctx.PopTag()
